@@ -131,3 +131,67 @@ def inline_inherited_new_helpers(ctx, idx, class_names):
             src.normalised["inherited-helpers"] = src.normalised.get("inherited-helpers", 0) + 1
             touched += 1
     return touched
+
+
+
+def expand_sibling_calls(src, qualname, siblings):
+    """a copy of function `qualname` of `src` in which the calls of the named functions of the same module (existing ones: the undo
+    passes only touch NEW helpers) are written out - a function that delegates its validation and look-up to a sibling is judged by
+    what the two do together.  Returns the function node (the original when nothing could be written out)."""
+    import ast
+    import copy
+    from . import normalize
+    f = src.func(qualname)
+    used = [n_ for n_ in siblings if n_ != qualname and n_ in src.funcs
+            and any(isinstance(c, ast.Call) and isinstance(c.func, ast.Name) and c.func.id == n_ for c in ast.walk(f))]
+    if not used:
+        return f
+    mod = ast.Module(body=[], type_ignores=[])
+    ren = {n_: f"_sibling_{n_}" for n_ in used}
+    for n_ in used:
+        g = copy.deepcopy(src.func(n_))
+        g.name = ren[n_]
+        g.decorator_list = []
+        mod.body.append(g)
+    h = copy.deepcopy(f)
+    for c in ast.walk(h):
+        if isinstance(c, ast.Call) and isinstance(c.func, ast.Name) and c.func.id in ren:
+            c.func.id = ren[c.func.id]
+    # a call that stands inside the expression of a simple statement is evaluated into a name of its own first, when the rest of
+    # that expression cannot tell the difference (no other call, nothing that is written)
+    k_ = [0]
+
+    def hoist(block):
+        out = []
+        for st in block:
+            for fld in ("body", "orelse", "finalbody"):
+                if isinstance(getattr(st, fld, None), list) and not isinstance(st, (ast.FunctionDef, ast.AsyncFunctionDef, ast.ClassDef)):
+                    setattr(st, fld, hoist(getattr(st, fld)))
+            val = getattr(st, "value", None) if isinstance(st, (ast.Return, ast.Assign, ast.Expr)) else None
+            if val is not None and not (isinstance(val, ast.Call) and isinstance(val.func, ast.Name) and val.func.id in ren.values()):
+                inner = [c for c in ast.walk(val) if isinstance(c, ast.Call) and isinstance(c.func, ast.Name) and c.func.id in ren.values()]
+                others = [c for c in ast.walk(val) if isinstance(c, (ast.Call, ast.Await, ast.NamedExpr, ast.Lambda, ast.GeneratorExp, ast.ListComp))
+                          and not any(c is y for i_ in inner for y in ast.walk(i_))]
+                if len(inner) == 1 and not others:
+                    k_[0] += 1
+                    tmp = f"_sibling_result_{k_[0]}"
+                    out.append(ast.copy_location(ast.Assign(targets=[ast.Name(id=tmp, ctx=ast.Store())], value=inner[0]), st))
+
+                    class R(ast.NodeTransformer):
+                        def visit_Call(self, n_):
+                            return ast.Name(id=tmp, ctx=ast.Load()) if n_ is inner[0] else self.generic_visit(n_)
+                    st.value = R().visit(val)
+            out.append(st)
+        return out
+    h.body[:] = hoist(h.body)
+    mod.body.append(h)
+    ast.fix_missing_locations(mod)
+    try:
+        n = normalize.inline_new_helpers(mod, {qualname})
+    except Exception:
+        return f
+    if not n:
+        return f
+    ast.fix_missing_locations(mod)
+    out = [x for x in mod.body if isinstance(x, (ast.FunctionDef, ast.AsyncFunctionDef)) and x.name == h.name]
+    return out[0] if out else f
